@@ -209,6 +209,27 @@ pub fn ls_check(id: &str) -> Option<LsCheck> {
             nontrivial: |f| f.iip_absent_interesting > 0 || f.vetoes_ttl > 0,
             assumptions: &["an expired but not yet reclaimed entry counts as physically resident (both outcomes are accepted by the property; the model follows the implementation)"],
         },
+        "C10" => LsCheck {
+            id: "C10",
+            profile: Profile {
+                name: "wait-barrier",
+                modes: vec![Mode::Schedule],
+                ttl_pct: 15,
+                w: w(|w| {
+                    w.wait = 16;
+                    w.remove = 12;
+                    w.clear = 3;
+                    w.proc_insert = 8;
+                    w.drain = 1;
+                }),
+                ..d
+            },
+            quick: 5000,
+            thorough: 120_000,
+            rule: "schedule-mode lock-step cases in which the real wait() runs (sync: on a helper thread while the interpreter steps the parked processor; async: polled) with work still buffered; wait() Ok must imply that every earlier item was applied (the model then predicts every later lookup and charge exactly); non-trivial = a wait() issued with >=1 item pending; distinct by case hash",
+            nontrivial: |f| f.waits_with_pending > 0,
+            assumptions: &["one client thread in this engine; races with clear()/close(): stress engine"],
+        },
         "C11" => LsCheck {
             id: "C11",
             profile: Profile {
@@ -823,5 +844,117 @@ pub fn stress_rule(id: &str) -> (&'static str, &'static [&'static str]) {
             "stress part: 2-6 real client threads with generated scripts on shared keys against a cache with real workers (tight capacity, TTLs under a global virtual clock, 5ms real ticker); inline: a lookup returns only a value written under that key and not yet handed to a callback before the lookup began; at quiescence: charged total == sum of charges, resident keys == charged keys (if no call returned Err), callback conservation, metrics conservation",
             &["the OS schedule is sampled, not enumerated"],
         ),
+    }
+}
+
+// ------------------------------------------------------------------------------------------
+// C19: lock-step differential sync vs async
+// ------------------------------------------------------------------------------------------
+
+pub fn diff_profile() -> Profile {
+    Profile {
+        name: "sync-vs-async",
+        modes: vec![Mode::Quiescent],
+        async_pct: 0,
+        cap: Cap::Mixed,
+        ttl_pct: 40,
+        metrics: Some(true),
+        validators: vec![Validator::Always, Validator::TagGe, Validator::Never],
+        getmut_write: true,
+        w: {
+            let mut w = Weights::default();
+            w.clear = 3;
+            w.tick = 10;
+            w.adv = 14;
+            w.wait = 3;
+            w
+        },
+        ..Profile::default()
+    }
+}
+
+/// run the same case on the parked sync and async caches; every observation must be equal
+pub fn diff_case(case: &Case, stats: Option<&Stats>) -> Result<Vec<String>, String> {
+    let mut a = case.clone();
+    a.cfg.flavour = Flavour::Sync;
+    let mut b = case.clone();
+    b.cfg.flavour = Flavour::Async;
+    let ra = match run_case_caught(&a, true) {
+        CaseResult::Ok(r) => r,
+        CaseResult::Harness(h) => return Err(h),
+        CaseResult::Panic(p) => return Ok(vec![format!("sync flavour panicked: {}", p)]),
+    };
+    let rb = match run_case_caught(&b, true) {
+        CaseResult::Ok(r) => r,
+        CaseResult::Harness(h) => return Err(h),
+        CaseResult::Panic(p) => return Ok(vec![format!("[async_panic] async flavour panicked: {}", p)]),
+    };
+    if let Some(stats) = stats {
+        let f = &ra.feats;
+        let nt = f.admissions_with_eviction > 0 && f.reclaimed > 0 && f.clears > 0;
+        stats.case(hash_of(case), nt, || case_sample(case));
+        stats.count("diff:cases");
+        for (name, on) in [("diff:nontrivial", nt), ("diff:eviction", f.admissions_with_eviction > 0), ("diff:reclaimed_by_tick", f.reclaimed > 0), ("diff:clear", f.clears > 0), ("diff:wait", f.waits > 0), ("diff:veto", f.vetoes > 0)] {
+            if on {
+                stats.count(name);
+            }
+        }
+    }
+    let mut out = Vec::new();
+    for (i, (x, y)) in ra.trace.iter().zip(rb.trace.iter()).enumerate() {
+        if x != y {
+            out.push(format!("[diff_observation] observation {} differs:\n   sync : {}\n   async: {}", i, x, y));
+            break;
+        }
+    }
+    if out.is_empty() && ra.trace.len() != rb.trace.len() {
+        out.push(format!("[diff_length] sync produced {} observations, async {}", ra.trace.len(), rb.trace.len()));
+    }
+    // the async flavour must satisfy the model-based predicates too
+    for f in rb.failures.iter() {
+        out.push(format!("[async:{}] step {}: {}", f.pred, f.step, f.msg));
+        break;
+    }
+    Ok(out)
+}
+
+pub fn run_diff_check(tier: &str, seed: u64, stats: &Stats) -> CheckOutcome {
+    let n = if tier_is_thorough(tier) { 120_000 } else { 5000 };
+    let prof = diff_profile();
+    let harness_err: parking_lot::Mutex<Option<String>> = parking_lot::Mutex::new(None);
+    let res = run_prop(|| case_strategy(&prof), n, seed, 16, stats, |case| match diff_case(case, Some(stats)) {
+        Err(h) => {
+            *harness_err.lock() = Some(h);
+            Ok(())
+        }
+        Ok(f) if f.is_empty() => Ok(()),
+        Ok(f) => Err(f.join("; ")),
+    });
+    if let Some(h) = harness_err.into_inner() {
+        return CheckOutcome { violation: None, inconclusive: Some(h) };
+    }
+    match res.failure {
+        None => CheckOutcome { violation: None, inconclusive: res.aborted },
+        Some((case, msg)) => {
+            // greedy reduction
+            let mut case = case;
+            let mut msg = msg;
+            let mut i = 0;
+            let mut budget = 1500;
+            while i < case.ops.len() && budget > 0 {
+                let mut cand = case.clone();
+                cand.ops.remove(i);
+                budget -= 1;
+                match diff_case(&cand, None) {
+                    Ok(f) if !f.is_empty() => {
+                        case = cand;
+                        msg = f.join("; ");
+                    }
+                    _ => i += 1,
+                }
+            }
+            let path = write_replay("C19", "diff", &case, &msg);
+            CheckOutcome { violation: Some((msg, path)), inconclusive: None }
+        }
     }
 }
